@@ -631,8 +631,9 @@ void to_json(JSON& object, const EntityTranslation& translation) {
 
 void from_json(const JSON& object, EntityTranslation& translation) {
   for (auto it = begin(object); it != end(object); ++it) {
-    auto key = begin(*it)->get<EntityUID>();
-    auto value = next(begin(*it))->get<EntityUID>();
+    // Note: at() reports a malformed pair as JSON format error instead of reading past the element
+    auto key = it->at(0).get<EntityUID>();
+    auto value = it->at(1).get<EntityUID>();
     translation.Insert(key, value);
   }
 }
